@@ -371,8 +371,12 @@ func c14CLI(c *Ctx, n int, thorough bool) error {
 		text := prog.Render()
 		disk := []DiskEntry{{Path: "in.dsl", Kind: "file", Data: []byte(text)}}
 		long, sub, abs := r.Chance(1, 2), r.Chance(1, 2), r.Chance(1, 3)
+		var goCfg *SchedConfig // set while the combined runs are repeated under other goroutine schedules
 		runSet := func(ts []string) (*CLIOutcome, *CLIWorld, error) {
 			w := &CLIWorld{Argv: compileArgv(ts, long, sub, abs), Disk0: disk, Sched: s0()}
+			if goCfg != nil {
+				w.Sched = *goCfg
+			}
 			o, err := c.sc.RunCLI(w)
 			if err == nil {
 				c.ev.AddRecord(&o.Rec)
@@ -417,8 +421,37 @@ func c14CLI(c *Ctx, n int, thorough bool) error {
 			}
 			subsets = append([][]string{full}, subsets[:14]...)
 		}
+		type setRun struct {
+			ts  []string
+			cfg *SchedConfig
+		}
+		var runs []setRun
 		for _, ts := range subsets {
+			runs = append(runs, setRun{ts, nil})
+		}
+		if bubbleOn {
+			// the tree starts goroutines (generators may run concurrently over
+			// the one model): "in whatever order generators run" is then also a
+			// matter of the goroutine schedule, so the combined invocations are
+			// repeated under scheduler-chosen interleavings and preemption
+			for k, ts := range subsets {
+				if k >= 6 {
+					break
+				}
+				for v, pe := range []int{0, 0, 3, 40} {
+					cfg := s0()
+					cfg.Seed = SubSeed(seed, "c14go", k*10+v)
+					cfg.GoMode, cfg.PreemptEvery = []string{"lifo", "random", "random", "random"}[v], pe
+					runs = append(runs, setRun{ts, &cfg})
+				}
+			}
+			c.ev.Fire("combined_invocation_under_goroutine_schedules", len(runs)-len(subsets))
+		}
+		for _, sr := range runs {
+			ts := sr.ts
+			goCfg = sr.cfg
 			o, w, err := runSet(ts)
+			goCfg = nil
 			if err != nil {
 				return err
 			}
@@ -729,7 +762,8 @@ func (c *Ctx) candidate14CLI(caseIdx int, prog *Prog, w *CLIWorld, ts []string, 
 	fails := func(p *Prog, set []string) (bool, []string, *CLIWorld, *CLIWorld) {
 		disk := []DiskEntry{{Path: "in.dsl", Kind: "file", Data: []byte(p.Render())}}
 		wa := &CLIWorld{Argv: compileArgv([]string{victim}, long, sub, abs), Disk0: disk, Sched: s0()}
-		wb := &CLIWorld{Argv: compileArgvDirs(set, layoutDirs(layout, set), long, sub, abs), Disk0: disk, Sched: s0()}
+		wb := &CLIWorld{Argv: compileArgvDirs(set, layoutDirs(layout, set), long, sub, abs), Disk0: disk, Sched: w.Sched}
+		wb.Sched.Sandbox, wb.Sched.Out = "", ""
 		if victim == "*" {
 			ob, err := c.sc.RunCLI(wb)
 			if err != nil || ob.TimedOut {
